@@ -55,6 +55,13 @@ func TraverseAST(node ast.Node, env *Pass1) ast.Node {
 			return nil
 		}
 
+		// 定義は展開した形で保存されるので、A1 EQU A0*1+A0*1, A2 EQU A1*1+A1*1, ... のような連鎖は 1 行ごとに
+		// 倍の大きさになります。際限なく膨らむ定義は受け付けません。
+		if size := len(evalValueExp.TokenLiteral()); size > maxMacroDefinitionLength {
+			log.Printf("error: EQU definition of '%s' expands to %d characters (limit %d)", n.Id.Value, size, maxMacroDefinitionLength)
+			return nil
+		}
+
 		// Pass1 のメソッドを使用して環境にマクロを定義します。
 		env.DefineMacro(n.Id.Value, evalValueExp)
 		log.Printf("debug: Defined macro '%s' = %s", n.Id.Value, evalValueExp.TokenLiteral())
@@ -280,6 +287,9 @@ func (p *Pass1) DefineMacro(name string, exp ast.Exp) {
 	log.Printf("debug: Defined macro '%s' = %s (stored as ast.Exp)", name, exp.TokenLiteral())
 
 }
+
+// maxMacroDefinitionLength は、展開後の EQU 定義として保存できる式の長さ (文字数) の上限です。
+const maxMacroDefinitionLength = 1 << 16
 
 // maxMacroExpansionsPerStatement は 1 つの文の評価で許す EQU 展開の回数です。
 // 非定数の EQU は参照のまま保存されるので、A1 EQU A0+A0, A2 EQU A1+A1, ... のような連鎖は
